@@ -87,6 +87,18 @@ public:
   Iterator removeFront() {return remove(_begin);}
   Iterator removeBack() {return remove(_end.item - 1);}
 
+  bool operator==(const Array& other) const
+  {
+    if(size() != other.size())
+      return false;
+    for(const T* a = _begin.item, * b = other._begin.item, * end = _end.item; a != end; ++a, ++b)
+      if(*a != *b)
+        return false;
+    return true;
+  }
+
+  bool operator!=(const Array& other) const {return !(*this == other);}
+
   operator const T*() const {return _begin.item;}
 
   operator T*() {return _begin.item;}
